@@ -42,7 +42,7 @@ macro_rules! int_elem {
                     2 => 0 as $t,
                     3 => 1 as $t,
                     4 => (x >> 8) as $t % 7 as $t,
-                    _ => mix(x, 17) as $t,
+                    _ => (mix(x, 17) as u128 | ((mix(x, 18) as u128) << 64)) as $t,
                 }
             }
             fn bits(&self) -> u128 {
@@ -69,6 +69,39 @@ int_elem!(u16, "u16");
 int_elem!(u32, "u32");
 int_elem!(u64, "u64");
 int_elem!(i64, "i64");
+int_elem!(u128, "u128");
+
+/// A derived wrapper, as users define them (`#[derive(Pco)]` also provides `Bytes`).
+#[derive(Debug, Clone, Copy, PartialEq, PartialOrd, vecdb::Pco)]
+pub struct Wrapped(pub u32);
+
+impl std::ops::AddAssign for Wrapped {
+    fn add_assign(&mut self, rhs: Self) {
+        self.0 = self.0.wrapping_add(rhs.0);
+    }
+}
+
+impl From<u8> for Wrapped {
+    fn from(v: u8) -> Self {
+        Wrapped(v as u32)
+    }
+}
+
+impl Elem for Wrapped {
+    const NAME: &'static str = "wrapped-u32";
+    fn from_seed(x: u64) -> Self {
+        Wrapped(u32::from_seed(x))
+    }
+    fn bits(&self) -> u128 {
+        self.0 as u128
+    }
+    fn from_bits128(b: u128) -> Self {
+        Wrapped(b as u32)
+    }
+    fn wadd(a: Self, b: Self) -> Self {
+        Wrapped(a.0.wrapping_add(b.0))
+    }
+}
 
 const F64_SPECIALS: &[u64] = &[
     0x0000_0000_0000_0000, // +0
